@@ -35,9 +35,9 @@ func cmp3(a int, b int) Comparison {
 
 type vIntValues struct{}
 
-func (vIntValues) Compare(a Value, b Value) Comparison { return cmp3(a.(int), b.(int)) }
+func (vIntValues) Compare(a Value, b Value) Comparison  { return cmp3(a.(int), b.(int)) }
 func (vIntValues) CompareKey(v Value, k Key) Comparison { return cmp3(v.(int), k.(int)) }
-func (vIntValues) Key(v Value) Key                     { return v }
+func (vIntValues) Key(v Value) Key                      { return v }
 
 // verifHelper_C07_inorder checks that iterating the list yields exactly n strictly
 // increasing values and that Len agrees.
